@@ -12,6 +12,7 @@
 -/
 import ASV.Proofs.ProtDna
 import ASV.Proofs.ProtDnaRebuild
+import ASV.Proofs.ProtDnaConvert
 namespace ASV.C09
 open ASV ASV.ProtDna
 
@@ -177,6 +178,33 @@ theorem frameshift_text (l : Loc) (raw : String) (undo : Bool) :
   · intro c hc; simp [frameshiftText, hc]
   · intro hc; simp [frameshiftText, hc]
 
+/-- `convert_protein_position_to_dna` itself (the public `Location` method; since fix D8 only the simple-location
+    branch feeds an annotation).  Full statement — "for every well-formed gene the pair delimits the range's
+    bases" — is FALSE for compound locations whose list order is not the coordinate order (origin-spanning genes:
+    witness below; the suite pins the sorted reading).  Proved part: exons listed upwards without overlap on a
+    non-reverse strand (`ascDisjointB`): the pair is (coordinate of base 3s, coordinate of base 3e-1, plus 1). -/
+theorem convert_compound_forward_partial (ps : List Part) (hwf : geneWF (.compound ps) = true)
+    (hnr : isRev (.compound ps) = false) (hasc : ascDisjointB ps = true) (s e : Nat) (hse : s < e)
+    (he : (e : Int) ≤ (Loc.compound ps).len / 3) :
+    ∃ ds de, convertProteinToDna s e (.compound ps) = .ok (ds, de) ∧
+      (bases (.compound ps))[3 * s]? = some ds ∧ (bases (.compound ps))[3 * e - 1]? = some (de - 1) ∧ ds < de :=
+  convert_compound_forward ps hwf hnr (ascDisjoint_of_B ps hasc) s e hse he
+
+/-- … and on the reverse strand with exons listed downwards without overlap (`descDisjointB`): `dna_start` is the
+    coordinate of the range's LAST base (3e-1), `dna_end` one past the coordinate of its FIRST base (3s) -/
+theorem convert_compound_reverse_partial (ps : List Part) (hwf : geneWF (.compound ps) = true)
+    (hr : isRev (.compound ps) = true) (hdesc : descDisjointB ps = true) (s e : Nat) (hse : s < e)
+    (he : (e : Int) ≤ (Loc.compound ps).len / 3) :
+    ∃ ds de, convertProteinToDna s e (.compound ps) = .ok (ds, de) ∧
+      (bases (.compound ps))[3 * e - 1]? = some ds ∧ (bases (.compound ps))[3 * s]? = some (de - 1) ∧ ds < de :=
+  convert_compound_reverse ps hwf hr (descDisjoint_of_B ps hdesc) s e hse he
+
+/-- simple locations: exact, both strands -/
+theorem convert_simple_location (p : Part) (s e : Int) (h0 : 0 ≤ s) (hse : s < e) (he : e ≤ (p.hi - p.lo) / 3) :
+    convertProteinToDna s e (.simple p)
+      = .ok (if p.strand == .rev then (p.hi - e * 3, p.hi - s * 3) else (p.lo + s * 3, p.lo + e * 3)) :=
+  convert_simple p s e h0 hse he
+
 /-! ### non-vacuity and witnesses (all decided by the kernel on the model) -/
 
 /-- D8 witnesses, now repaired: the origin-spanning forward gene join{[90:102),[0:21)} and its reverse twin -/
@@ -243,5 +271,13 @@ example : ambiguousEnd (.compound [⟨21, 27, .rev⟩, ⟨3, 15, .rev⟩]) [(fal
     ∧ ambiguousEnd (.compound [⟨21, 27, .rev⟩, ⟨3, 15, .rev⟩]) [(false, true), (false, false)] = false := by decide
 example : codonStartOfText "2" = some 2 ∧ codonStartOfText "3x" = some 3 ∧ codonStartOfText "2.0" = some 2
     ∧ codonStartOfText " 2" = none ∧ codonStartOfText "-1" = none := by decide
+
+/-- `convert_*_partial`: hypotheses satisfiable, and the negation witness of the full statement (D8's origin gene:
+    the pair (0,6) is not where residues [0,2) are — base 0 of the gene is coordinate 90) -/
+example : ascDisjointB [⟨0, 6, .fwd⟩, ⟨12, 15, .fwd⟩, ⟨21, 27, .fwd⟩] = true
+    ∧ descDisjointB [⟨21, 27, .rev⟩, ⟨12, 15, .rev⟩, ⟨0, 6, .rev⟩] = true ∧ ascDisjointB d8Fwd.parts = false := by decide
+example : convertProteinToDna 1 5 (.compound [⟨0, 6, .fwd⟩, ⟨12, 15, .fwd⟩, ⟨21, 27, .fwd⟩]) = .ok (3, 27) := by decide
+example : convertProteinToDna 1 5 (.compound [⟨21, 27, .rev⟩, ⟨12, 15, .rev⟩, ⟨0, 6, .rev⟩]) = .ok (0, 24) := by decide
+example : convertProteinToDna 0 2 d8Fwd = .ok (0, 6) ∧ (bases d8Fwd)[0]? = some 90 := by decide
 
 end ASV.C09
